@@ -199,7 +199,7 @@ func (p *c12) aliasRebind(rec *core.Recorder, r *core.Rand) {
 	A := func(v string) string { return "<a:" + v + ":da>" }
 	B := func(v string) string { return "<b:" + v + ":db>" }
 	var want string
-	v := r.Intn(20)
+	v := r.Intn(22)
 	L := func(v string) string { return "<l:" + v + ":dl>" }
 	local := "{% macro x(v, w = 'dl') %}<l:{{ v }}:{{ w }}>{% endmacro %}"
 	// a library whose macros call each other and themselves, by name and through _self
@@ -207,6 +207,38 @@ func (p *c12) aliasRebind(rec *core.Recorder, r *core.Rand) {
 		"{% macro rec(n) %}{{ n }}{% if n > 1 %},{{ _self.rec(n - 1) }}{% endif %}{% endmacro %}{% macro rec2(n) %}{{ n }}{% if n > 1 %};{{ rec2(n - 1) }}{% endif %}{% endmacro %}"
 	sib := func(v string) string { return "[<i:" + v + "><i:" + v + ">]|3,2,1|2;1" }
 	switch v {
+	case 20:
+		// a library that defines one macro only, which calls itself (by name or through _self), however it is reached; the
+		// importing template's own macro of the same name is not what it calls
+		byName := r.Intn(2) == 0
+		srcs["l1"] = "{% macro tree(n) %}{{ n }}{% if n > 0 %}-{{ " + map[bool]string{true: "tree", false: "_self.tree"}[byName] + "(n - 1) }}{% endif %}{% endmacro %}"
+		own := []string{"", "{% macro tree(n) %}WRONG{% endmacro %}"}[r.Intn(2)]
+		switch r.Intn(4) {
+		case 0:
+			srcs["main"] = own + "{% import 'l1' as " + alias + " %}{{ " + alias + ".tree(2) }}|{{ " + alias + ".tree(0) }}"
+		case 1:
+			srcs["main"] = own + "{% from 'l1' import tree as t9 %}{{ t9(2) }}|{{ t9(0) }}"
+		case 2:
+			srcs["main"] = "{% from 'l1' import tree %}{{ tree(2) }}|{{ tree(0) }}"
+		default:
+			srcs["main"] = srcs["l1"] + "{{ tree(2) }}|{{ _self.tree(0) }}"
+		}
+		want = "2-1-0|0"
+	case 21:
+		// a default expression that calls another macro of the defining template, however the macro is reached
+		srcs["ld"] = "{% macro bb(x) %}<{{ x }}>{% endmacro %}{% macro aa(x, y = bb(7), z = 'dz') %}[{{ x }}|{{ y }}|{{ z }}]{% endmacro %}"
+		own := []string{"", "{% macro bb(x) %}WRONG{% endmacro %}"}[r.Intn(2)]
+		switch r.Intn(4) {
+		case 0:
+			srcs["main"] = own + "{% import 'ld' as " + alias + " %}{{ " + alias + ".aa(" + a + ") }}|{{ " + alias + ".aa(" + b + ", 'k') }}"
+		case 1:
+			srcs["main"] = own + "{% from 'ld' import aa as a9 %}{{ a9(" + a + ") }}|{{ a9(" + b + ", 'k') }}"
+		case 2:
+			srcs["main"] = own + "{% from 'ld' import aa %}{{ aa(" + a + ") }}|{{ aa(" + b + ", 'k') }}"
+		default:
+			srcs["main"] = srcs["ld"] + "{{ aa(" + a + ") }}|{{ _self.aa(" + b + ", 'k') }}"
+		}
+		want = "[" + a + "|<7>|dz]|[" + b + "|k|dz]"
 	case 12:
 		// an aliased import of another library's x leaves the template's own x alone
 		srcs["main"] = local + "{% from 'lb' import x as y %}{{ y(" + a + ") }}|{{ x(" + b + ") }}|{{ _self.x(" + c + ") }}"
